@@ -34,6 +34,10 @@ def _pinned_anchors():
     return _PINNED
 
 
+import string as _string
+_STDLIB_CONSTANTS = dict((("string", n), getattr(_string, n)) for n in ("ascii_letters", "ascii_lowercase", "ascii_uppercase", "digits", "hexdigits", "octdigits", "punctuation", "whitespace", "printable"))
+
+
 class AnalysisError(Exception):
     """Checker cannot decide: anchor vanished / unknown idiom in a fail-closed rule."""
 
@@ -493,13 +497,15 @@ class Repo(object):
                 raise AnchorError("constant %s.%s not found" % key)
             kind = rec[0]
             if kind == "assign":
-                val = self.ceval(module, rec[1])
+                val = self._fold(module, rec[1])
             elif kind == "unpack":
-                val = self.ceval(module, rec[1])[rec[2]]
+                val = self._fold(module, rec[1])[rec[2]]
             elif kind == "import":
                 src, orig = rec[1], rec[2]
                 if src in self._paths:
                     val = self.const(self.mod(src), orig)
+                elif (src, orig) in _STDLIB_CONSTANTS:
+                    val = _STDLIB_CONSTANTS[(src, orig)]
                 else:
                     raise Unknown("external %s.%s" % (src, orig))
             elif kind in ("def", "class"):
@@ -510,6 +516,21 @@ class Repo(object):
             self._evaluating.discard(key)
         self._const_cache[key] = val
         return val
+
+    def _fold(self, module, node):
+        """constant folding of a module-level initialiser: the small evaluator first, the finite-domain
+        interpreter (comprehensions over itertools, helper calls, ...) when it does not know the construct"""
+        try:
+            return self.ceval(module, node)
+        except Unknown as first:
+            from .microeval import _Interp
+            try:
+                v = _Interp(self, module, {}, 0).expr(node)
+            except Unknown:
+                raise first
+            except RecursionError:
+                raise first
+            return v
 
     def const_node(self, module, name):
         """The AST node of the (last) assignment binding a module-level name."""
